@@ -3,7 +3,7 @@ CONSTANTS
   MaxBlocks = 2
   MaxReqs = 2
   Templates = {"o23", "ret", "d3"}
-  PatchKinds = {"plain2", "loop"}
+  PatchKinds = {"plain2", "loop", "resume"}
   FnLayouts = {"none", "one"}
   EndSyms = {TRUE, FALSE}
   NoSyms = {TRUE, FALSE}
@@ -12,6 +12,8 @@ CONSTANTS
   CfiLayouts = {"none"}
   Isa = "arm64"
   WithScopes = FALSE
+  Leads = {0}
+  DropFnTables = {FALSE}
   ExtraData = {FALSE}
   Retargets = {FALSE}
   AlignOpts = {0}
